@@ -76,19 +76,20 @@ def weights_world(it, lp_kind='native'):
 
 def gsum_steps(ck, prog):
     """one step of open / expand / close from an arbitrary state with GLOBAL = sum of address weights."""
-    for op in ('open', 'expand', 'close'):
-        def body(it, op=op):
+    for op in ('open', 'expand', 'close', 'open.recv', 'expand.recv'):
+        recv = op.endswith('.recv'); op0 = op; op = op.split('.')[0]
+        def body(it, op=op, recv=recv):
             c = it.ctx
             st = weights_world(it)
             A = c.sym('amount', 128); D = c.sym('duration', 64); c.assume(A <= AMAX)
             it.extra = dict(st=st, A=A, D=D)
             if op == 'close': msg = it.mkv(IX, 'ClosePosition', unbonding_duration=D); funds = []
             else:
-                msg = it.mkv(IX, 'OpenPosition' if op == 'open' else 'ExpandPosition', amount=U128(A), unbonding_duration=D, receiver=NONE())
+                msg = it.mkv(IX, 'OpenPosition' if op == 'open' else 'ExpandPosition', amount=U128(A), unbonding_duration=D, receiver=SOME(Str('bob')) if recv else NONE())
                 funds = [COIN(st['lp'], A)]
             return enter(it, 'incentive', 'execute', mk_env(it, c.sym('now', 64)), mk_info('alice', funds), msg)
         n = 0
-        for p in ck.explore(prog, body, 'gsum.' + op, stubs=STUBS, validate=(op != 'close')):
+        for p in ck.explore(prog, body, 'gsum.' + op0, stubs=STUBS, validate=(op != 'close')):
             if not p.ok: continue
             n += 1
             st = p.extra['st']
@@ -101,9 +102,13 @@ def gsum_steps(ck, prog):
                           site='close_position saturating_sub')
                 ck.oblige('C13.global_eq_sum.step.close', p, z3.And(G2 != a2 + b2 + st['rest'], z3.Not(st['aw'] < st['gw'] - G2)), 'GLOBAL_WEIGHT = sum of ADDRESS_WEIGHT after close')
             else:
-                ck.oblige('C13.global_eq_sum.step.' + op, p, G2 != a2 + b2 + st['rest'], 'GLOBAL_WEIGHT = sum of ADDRESS_WEIGHT after ' + op)
-            ck.oblige('C13.weights.others.' + op, p, b2 != st['bw'], 'nobody else\'s weight changes')
-        ck.require(n >= 1, 'gsum.%s: no Ok path' % op)
+                ck.oblige('C13.global_eq_sum.step.' + op0, p, G2 != a2 + b2 + st['rest'], 'GLOBAL_WEIGHT = sum of ADDRESS_WEIGHT after ' + op0)
+            if recv:
+                ck.oblige('C13.weights.others.' + op0, p, a2 != st['aw'], 'a deposit for a receiver leaves the sender\'s own weight alone')
+                ck.oblige('C13.weights.receiver.' + op0, p, b2 - st['bw'] != G2 - st['gw'], 'the receiver\'s weight grows by exactly what the global weight grows')
+            else:
+                ck.oblige('C13.weights.others.' + op0, p, b2 != st['bw'], 'nobody else\'s weight changes')
+        ck.require(n >= 1, 'gsum.%s: no Ok path' % op0)
 
 
 def gsum_history(ck, prog):
